@@ -321,13 +321,23 @@ func c17ReplyTimeout(w *W) {
 	s := w.Sock(kind)
 	defer s.Close()
 	mustSet(w, s, mangos.OptionWriteQLen, 1)
-	mustSet(w, s, mangos.OptionSendDeadline, time.Millisecond)
+	// either the reply's send deadline expires, or the requester goes away
+	// while the reply is blocked behind its full queue
+	lost := w.Choose(simrt.SProg, 2) == 0
+	if lost {
+		mustSet(w, s, mangos.OptionSendDeadline, time.Second)
+	} else {
+		mustSet(w, s, mangos.OptionSendDeadline, time.Millisecond)
+	}
 	mustSet(w, s, mangos.OptionRecvDeadline, 5*time.Millisecond)
 	if err := s.Listen(addr); err != nil {
 		return
 	}
 	p := mn.Connect(addr)
 	w.Settle()
+	if lost {
+		mustSet(w, s, mangos.OptionSendDeadline, time.Second)
+	}
 	timeouts := 0
 	for i := 0; i < 7 && !w.Failed(); i++ {
 		p.Inject(inbound(kind, uint32(i+1), fmt.Sprintf("q%d", i)))
@@ -350,13 +360,26 @@ func c17ReplyTimeout(w *W) {
 		c := w.Do("SendMsg(reply)", func() (interface{}, error) { return nil, s.SendMsg(m) })
 		c.Wait(20 * time.Millisecond)
 		w.Settle()
+		if lost && !c.Returned() {
+			w.Op("the requester goes away while the reply is blocked behind its full queue")
+			w.Fault("close")
+			p.ClosePeer()
+			w.Settle()
+			c.Wait(20 * time.Millisecond)
+			w.Settle()
+			if c.Returned() && c.Err != nil {
+				w.Probe("failed-send-peer-lost-while-blocked")
+			}
+		}
 		if !c.Returned() {
-			w.Failf("C18/late", "%s reply Send with 1ms deadline pending", kind)
+			w.Failf("C18/late", "%s reply Send (deadline %v, requester gone: %v) pending", kind, map[bool]string{true: "1s", false: "1ms"}[lost], lost)
 			return
 		}
 		if c.Err != nil {
 			timeouts++
-			w.Probe("failed-send-reply-timeout")
+			if !lost {
+				w.Probe("failed-send-reply-timeout")
+			}
 			// allocate around the same classes: a wrongly released buffer would be handed out again
 			for j := 0; j < 3; j++ {
 				x := mangos.NewMessage(len(body))
